@@ -6,31 +6,7 @@
 import GoBT.Ord.Model
 import GoBT.Props.C13
 namespace GoBT.C20
-open GoBT GoBT.Script GoBT.Ord
-
-/-- a script element as Inscribe writes it: a bare opcode (not a push opcode) or a data push -/
-inductive Tok
-  | op (b : UInt8)
-  | push (p : Bytes)
-
-def Tok.ok : Tok → Prop
-  | .op b => ¬ (1 ≤ b.toNat ∧ b.toNat ≤ 0x4e)
-  | .push p => 1 ≤ p.length ∧ p.length < 2 ^ 32
-
-def Tok.enc : Tok → Option Bytes
-  | .op b => some [b]
-  | .push p => (pushPrefix p.length).map (· ++ p)
-
-def Tok.part : Tok → Bytes
-  | .op b => [b]
-  | .push p => p
-
-def encToks : List Tok → Option Bytes
-  | [] => some []
-  | t :: ts => do
-    let a ← t.enc
-    let r ← encToks ts
-    pure (a ++ r)
+open GoBT GoBT.Script GoBT.Ord GoBT.C13
 
 /-- how AppendPushData writes a byte string: OP_0 for the empty one -/
 def tokOf (p : Bytes) : Tok := if p = [] then .op 0x00 else .push p
@@ -53,48 +29,6 @@ theorem tokOf_enc (p : Bytes) : (tokOf p).enc = pushData p := by
 
 private theorem u8n' {n : Nat} (h : n < 256) : (UInt8.ofNat n).toNat = n := by
   simp [UInt8.toNat_ofNat', Nat.mod_eq_of_lt h]
-
-/-- one decoding step on an encoded element -/
-theorem decodeStep_tok (t : Tok) (ht : t.ok) (rest : Bytes) :
-    ∃ e, t.enc = some e ∧ e ≠ [] ∧ decodeStep (e.headD 0) (e.tail ++ rest) = some (t.part, rest) := by
-  cases t with
-  | op b =>
-    refine ⟨[b], rfl, by simp, ?_⟩
-    simp only [Tok.ok, not_and, Nat.not_le] at ht
-    have h1 : b ≠ opPUSHDATA1 := by intro e; subst e; simp [opPUSHDATA1] at ht
-    have h2 : b ≠ opPUSHDATA2 := by intro e; subst e; simp [opPUSHDATA2] at ht
-    have h3 : b ≠ opPUSHDATA4 := by intro e; subst e; simp [opPUSHDATA4] at ht
-    have h4 : ¬ (1 ≤ b.toNat ∧ b.toNat ≤ 75) := by intro ⟨a, c⟩; have := ht a; omega
-    simp [decodeStep, h1, h2, h3, h4, Tok.part]
-  | push p =>
-    obtain ⟨pre, hpre, hne, hstep⟩ := C13.decodeStep_push p rest ht.1 ht.2
-    refine ⟨pre ++ p, by simp [Tok.enc, hpre], by simp [hne], ?_⟩
-    cases pre with
-    | nil => exact absurd rfl hne
-    | cons b t =>
-      simp only [List.headD_cons, List.tail_cons, List.cons_append, List.append_assoc] at hstep ⊢
-      exact hstep
-
-/-- decoding an encoded element list gives back the elements' parts -/
-theorem decode_toks (ts : List Tok) (h : ∀ t ∈ ts, t.ok) :
-    ∃ enc, encToks ts = some enc ∧ ∀ fuel, enc.length ≤ fuel → decodePartsAux fuel enc = (ts.map Tok.part, true) := by
-  induction ts with
-  | nil => exact ⟨[], rfl, fun fuel _ => by cases fuel <;> rfl⟩
-  | cons t ts ih =>
-    obtain ⟨enc', he', hd'⟩ := ih (fun x hx => h x (by simp [hx]))
-    obtain ⟨e, het, hne, hstep⟩ := decodeStep_tok t (h t (by simp)) enc'
-    refine ⟨e ++ enc', by simp [encToks, het, he'], ?_⟩
-    intro fuel hf
-    cases e with
-    | nil => exact absurd rfl hne
-    | cons b r =>
-      simp only [List.headD_cons, List.tail_cons] at hstep
-      cases fuel with
-      | zero => simp at hf
-      | succ f =>
-        simp only [List.cons_append, decodePartsAux, hstep]
-        have := hd' f (by simp at hf; omega)
-        simp [this]
 
 /-- the length the part walk of ParseInscription advances by, for an encoded element -/
 theorem walk_step (t : Tok) (ht : t.ok) (e : Bytes) (he : t.enc = some e) :
